@@ -122,14 +122,14 @@ def check(ctx):
     sa = D.own_method("__setattr__")
     A = FuncView(ctx, sa, exc="calls")
     store = A.need(A.call_nodes("self.__dict__.__setitem__"), "__dict__.__setitem__ in Data.__setattr__")
-    t = A.ptests(lambda t: isinstance(t, ast.BoolOp) and isinstance(t.op, ast.Or) and
-                 {src(v).replace("(", "").replace(")", "") for v in t.values} == {"key in self.__dict__", "REO_IdentPub.matchkey"})
-    raises = [n for n in A.cfg.nodes if n.kind == "raise"]
-    compound = bool(t) and A.under(store, t[0]) and any(A.under([r], t[0], holds=False) and "AttributeError" in src(r.ast) for r in raises)
-    # or the two alternatives tested one after the other (if present: store / elif identifier: store / else: raise)
-    P1, P2 = "key in self.__dict__", "REO_IdentPub.match(key)"
-    split = bool(store) and all((P1 in A.facts(n)) or (P2 in A.facts(n)) for n in store) and \
-        any({"key not in self.__dict__", "not REO_IdentPub.match(key)"} <= A.facts(r) and "AttributeError" in src(r.ast) for r in raises)
+    from ..rules import local_condition, formula_equiv
+    raises = [n for n in A.cfg.nodes if n.kind == "raise" and "AttributeError" in src(n.ast)]
+    WANT = "key in self.__dict__ or REO_IdentPub.match(key)"
+    # measured from the handler that both arms live in: store under the condition, AttributeError under its negation
+    compound = bool(store) and bool(raises) and \
+        formula_equiv(("or", [local_condition(A, n, by_value=False) for n in store]), WANT) and \
+        formula_equiv(("or", [local_condition(A, n, by_value=False) for n in raises]), "not (%s)" % WANT)
+    split = False
     ctx.check(compound or split,
               "T1-ident", sa, "Data.__setattr__: store iff key present or REO_IdentPub.match(key), else AttributeError",
               "field names must be public identifiers")
@@ -169,3 +169,34 @@ def check(ctx):
               "spew = popleft, IndexError -> None", "spew returns None only when the deck is empty")
     entries = [m for m in S.methods.values()] + [m for m in K.methods.values()] + [m for m in D.methods.values()]
     defect_scope(ctx, "D-scope", entries, max_depth=0, floor=40, label="scope: Share, Deck, Data methods")
+    mapping_arguments(ctx)
+
+
+def mapping_arguments(ctx):
+    """Share.change / Share.create accept, positionally, a dict, *any object with .get and .items* (another Share, a mapping
+    proxy) or a sequence of duples.  The test that tells a mapping from a sequence is part of what `update` means for those
+    arguments; the look-alike loops of Data.__init__/_change/changeUnit only accept real dicts."""
+    from ..rules import formula_equiv, formula_of, path_condition
+    ctx.rule("T7-mapping", "Share.change/create classify a positional argument with isinstance(a, dict) or (hasattr(a, 'get') and hasattr(a, 'items'))")
+    S = ctx.cls("storing", "Share")
+    for mn in ("change", "create"):
+        f = S.own_method(mn)
+        V = FuncView(ctx, f)
+        from ..rules import _atom
+        WANT = "isinstance({0}, dict) or (hasattr({0}, 'get') and hasattr({0}, 'items'))"
+        ok, seen = True, 0
+        for h in [n for n in V.cfg.nodes if n.kind == "for"]:
+            itv = V.sym(h.ast.iter, h)
+            if isinstance(itv, ast.IfExp) and src(itv.body) == src(itv.orelse) + ".items()":
+                # one loop over `a.items() if <mapping test> else a`
+                seen += 1
+                ok = ok and formula_equiv(_atom(itv.test), WANT.format(src(itv.orelse)))
+            elif src(itv).endswith(".items()") and not src(itv).startswith("kwa"):
+                seen += 1
+                var = src(itv)[:-len(".items()")]
+                ok = ok and formula_equiv(path_condition(V, h, by_value=False), WANT.format(var))   # within the loop over pa
+        ok = ok and seen > 0
+        ctx.check(ok, "T7-mapping", f, "Share.%s: a positional argument is a mapping iff it is a dict or has .get and .items" % mn,
+                  "a dictionary-like argument that is not a dict subclass (another Share, a MappingProxyType) is iterated as a "
+                  "sequence of duples: its keys are unpacked character by character into bogus fields or raise ValueError, and "
+                  "update() never stamps")
